@@ -2,6 +2,7 @@
 Helper lemmas for C06 (on-policy collection). The property theorems are in `Props/C06.lean`.
 -/
 import SB3Verif.Model.OnPolicy
+import SB3Verif.Lemmas.Rollout
 import Mathlib.Algebra.Order.Field.Basic
 import Mathlib.Tactic.Ring
 import Mathlib.Tactic.Linarith
@@ -93,6 +94,128 @@ theorem gaeCol_snoc_getLast (γ lam lv ln : α) (ss : List (Step α)) (s : Step 
     exact ih
 
 end gae
+
+/-! ### The collected buffer as input of the C05 closed form -/
+
+section compose
+open SB3Verif.Rollout
+variable {O A α : Type} [CommRing α]
+
+/-- Step `k` of column `e` as GAE reads it, written on the externals. -/
+def mkStep (γ : α) (V : O → α) (e : ℕ) (p : Carry O) (x : StepIn O A α) : Step α :=
+  { r := rewardOf γ V (x.out e), v := V (p.lastObs e), start := boolS (p.lastStarts e) }
+
+theorem gaeSteps_rows (γ : α) (V : O → α) (f : A → A) (c : Carry O) (xs : List (StepIn O A α)) (e : ℕ) :
+    gaeSteps (collectRollout γ V f c xs).rows e = List.zipWith (mkStep γ V e) (c :: xs.map carryOf) xs := by
+  simp only [collectRollout, collectLoop_rows, gaeSteps, List.map_zipWith]
+  rfl
+
+theorem steps_length (γ : α) (V : O → α) (f : A → A) (c : Carry O) (xs : List (StepIn O A α)) (e : ℕ) :
+    (gaeSteps (collectRollout γ V f c xs).rows e).length = xs.length := by
+  simp [gaeSteps, collectRollout, collectLoop_rows_length]
+
+theorem nextOf_drop (lv ln : α) (ss : List (Step α)) (k : ℕ) :
+    nextOf lv ln (ss.drop k) = match ss[k]? with
+      | some s' => (s'.v, 1 - s'.start)
+      | none => (lv, ln) := by
+  cases h : ss[k]? with
+  | none =>
+    have : ss.drop k = [] := by
+      rw [List.drop_eq_nil_iff]; exact List.getElem?_eq_none_iff.mp h
+    simp [this, nextOf]
+  | some s' =>
+    obtain ⟨hk, rfl⟩ := List.getElem?_eq_some_iff.mp h
+    rw [List.drop_eq_getElem_cons hk]
+    simp [nextOf]
+
+theorem getLast_of_last_index {β : Type} (l : List β) (k : ℕ) (x : β) (h₀ : l[k]? = some x)
+    (h₁ : l[k + 1]? = none) : l.getLast? = some x := by
+  have hk : k < l.length := (List.getElem?_eq_some_iff.mp h₀).1
+  have hk1 : l.length ≤ k + 1 := List.getElem?_eq_none_iff.mp h₁
+  have : l.length - 1 = k := by omega
+  rw [List.getLast?_eq_getElem?, this, h₀]
+
+/-- `next_values` / `next_non_terminal` seen by step `k`: value of the observation that step returned and
+`1 - done` of that step — from the next row inside the rollout, from `last_values` / `dones` at its end. -/
+theorem next_collected (γ : α) (V : O → α) (f : A → A) (c : Carry O) (xs : List (StepIn O A α)) (e k : ℕ)
+    (x : StepIn O A α) (hx : xs[k]? = some x) :
+    nextOf ((collectRollout γ V f c xs).lastValues e) (1 - boolS ((collectRollout γ V f c xs).lastDones e))
+        ((gaeSteps (collectRollout γ V f c xs).rows e).drop (k + 1)) =
+      (V ((x.out e).obs), 1 - boolS (x.out e).done) := by
+  rw [nextOf_drop, gaeSteps_rows, List.getElem?_zipWith]
+  cases h1 : xs[k + 1]? with
+  | none =>
+    have hl := getLast_of_last_index xs k x hx h1
+    simp [collectRollout, hl, carryOf, hx]
+  | some x1 =>
+    simp [hx, mkStep, carryOf]
+
+theorem nntAt_collected (γ : α) (V : O → α) (f : A → A) (c : Carry O) (xs : List (StepIn O A α)) (e k : ℕ)
+    (hk : k < xs.length) :
+    nntAt ((collectRollout γ V f c xs).lastValues e) (1 - boolS ((collectRollout γ V f c xs).lastDones e))
+        (gaeSteps (collectRollout γ V f c xs).rows e) k = 1 - boolS (doneAt xs e k) := by
+  have hx : xs[k]? = some xs[k] := List.getElem?_eq_getElem hk
+  simp [nntAt, next_collected γ V f c xs e k _ hx, doneAt, hx]
+
+theorem deltaAt_collected (γ : α) (V : O → α) (f : A → A) (c : Carry O) (xs : List (StepIn O A α)) (e k : ℕ)
+    (hk : k < xs.length) :
+    deltaAt γ ((collectRollout γ V f c xs).lastValues e) (1 - boolS ((collectRollout γ V f c xs).lastDones e))
+        (gaeSteps (collectRollout γ V f c xs).rows e) k = tdAt γ V c xs e k := by
+  have hx : xs[k]? = some xs[k] := List.getElem?_eq_getElem hk
+  have hp : ∃ p, (c :: xs.map carryOf)[k]? = some p := by
+    have : k < (c :: xs.map carryOf).length := by simp; omega
+    exact ⟨_, List.getElem?_eq_getElem this⟩
+  obtain ⟨p, hp⟩ := hp
+  have hs : (gaeSteps (collectRollout γ V f c xs).rows e)[k]? = some (mkStep γ V e p xs[k]) := by
+    rw [gaeSteps_rows, List.getElem?_zipWith, hp, hx]
+  simp only [deltaAt, hs, nvAt, nntAt, next_collected γ V f c xs e k _ hx, tdAt, hp, hx, delta, mkStep]
+
+theorem adv_closed (γ lam : α) (V : O → α) (f : A → A) (c : Carry O) (xs : List (StepIn O A α)) (e t : ℕ) :
+    (advantagesOf γ lam (collectRollout γ V f c xs) e).getD t 0 =
+      ∑ l ∈ Finset.range (xs.length - t),
+        (γ * lam) ^ l * (∏ j ∈ Finset.range l, (1 - boolS (doneAt xs e (t + j)))) * tdAt γ V c xs e (t + l) := by
+  unfold advantagesOf
+  rw [SB3Verif.Lemmas.gaeCol_getD_closed, steps_length]
+  apply Finset.sum_congr rfl
+  intro l hl
+  have hl' : t + l < xs.length := by have := Finset.mem_range.mp hl; omega
+  rw [deltaAt_collected γ V f c xs e (t + l) hl']
+  congr 2
+  apply Finset.prod_congr rfl
+  intro j hj
+  have : t + j < xs.length := by have := Finset.mem_range.mp hj; omega
+  exact nntAt_collected γ V f c xs e (t + j) this
+
+theorem adv_segment (γ lam : α) (V : O → α) (f : A → A) (c : Carry O) (xs : List (StepIn O A α)) (e s t : ℕ)
+    (hst : s ≤ t) (ht : t < xs.length) (hrun : ∀ j, s ≤ j → j < t → doneAt xs e j = false)
+    (hend : doneAt xs e t = true) :
+    (advantagesOf γ lam (collectRollout γ V f c xs) e).getD s 0 =
+      ∑ l ∈ Finset.range (t - s + 1), (γ * lam) ^ l * tdAt γ V c xs e (s + l) := by
+  rw [adv_closed]
+  have hsub : Finset.range (t - s + 1) ⊆ Finset.range (xs.length - s) := by
+    intro l hl; have := Finset.mem_range.mp hl; exact Finset.mem_range.mpr (by omega)
+  rw [← Finset.sum_subset hsub]
+  · apply Finset.sum_congr rfl
+    intro l hl
+    have hl' := Finset.mem_range.mp hl
+    have : (∏ j ∈ Finset.range l, (1 - boolS (doneAt xs e (s + j)) : α)) = 1 := by
+      apply Finset.prod_eq_one
+      intro j hj
+      have := Finset.mem_range.mp hj
+      rw [hrun (s + j) (by omega) (by omega)]
+      simp [boolS]
+    rw [this, mul_one]
+  · intro l _ hnot
+    have hl : t - s < l := by
+      by_contra h; exact hnot (Finset.mem_range.mpr (by omega))
+    have : (∏ j ∈ Finset.range l, (1 - boolS (doneAt xs e (s + j)) : α)) = 0 := by
+      apply Finset.prod_eq_zero (Finset.mem_range.mpr hl)
+      have : s + (t - s) = t := by omega
+      rw [this, hend]
+      simp [boolS]
+    rw [this]; ring
+
+end compose
 
 section clip
 variable {α : Type} [LinearOrder α]
